@@ -1069,7 +1069,7 @@ class LagFreeze(Lag):
     """
 
     def __init__(self, u, T, K, freeze, D=1, name=None, tex_name=None, info=None):
-        Lag.__init__(self, u, T, K, D=1, name=name, tex_name=tex_name, info=info)
+        Lag.__init__(self, u, T, K, D=D, name=name, tex_name=tex_name, info=info)
         self.freeze = dummify(freeze)
 
         self.flag = EventFlag(u=self.freeze, tex_name='z^{flag}')
@@ -1085,12 +1085,12 @@ class LagFreeze(Lag):
 
         .. math ::
 
-            T \dot{y} &= (1 - freeze) * (Ku - y) \\
-            y^{(0)} &= K u
+            T \dot{y} &= (1 - freeze) * (Ku - Dy) \\
+            y^{(0)} &= K u / D
 
         """
         Lag.define(self)
-        self.y.e_str = f'(1 - {self.freeze.name})* ({self.K.name} * {self.u.name} - {self.name}_y)'
+        self.y.e_str = f'(1 - {self.freeze.name})* ({self.K.name} * {self.u.name} - {self.D.name} * {self.name}_y)'
 
 
 class LagAntiWindup(Block):
@@ -1187,14 +1187,14 @@ class LagAWFreeze(LagAntiWindup):
 
         .. math ::
 
-            T \dot{y} &= (1 - freeze) (Ku - y) \\
-            y^{(0)} &= K u
+            T \dot{y} &= (1 - freeze) (Ku - Dy) \\
+            y^{(0)} &= K u / D
 
         ``y`` undergoes an anti-windup limiter.
 
         """
         LagAntiWindup.define(self)
-        self.y.e_str = f'(1 - {self.freeze.name}) * ({self.K.name} * {self.u.name} - {self.name}_y)'
+        self.y.e_str = f'(1 - {self.freeze.name}) * ({self.K.name} * {self.u.name} - {self.D.name} * {self.name}_y)'
 
 
 class LagRate(Block):
@@ -1265,12 +1265,12 @@ class LagRate(Block):
 
         .. math ::
 
-            T \dot{y} &= (Ku - y) \\
-            y^{(0)} &= K u
+            T \dot{y} &= (Ku - Dy) \\
+            y^{(0)} &= K u / D
 
         """
-        self.y.v_str = f'{self.u.name} * {self.K.name}'
-        self.y.e_str = f'{self.K.name} * {self.u.name} - {self.name}_y'
+        self.y.v_str = f'{self.u.name} * {self.K.name} / {self.D.name}'
+        self.y.e_str = f'{self.K.name} * {self.u.name} - {self.D.name} * {self.name}_y'
 
 
 class LagAntiWindupRate(Block):
